@@ -129,6 +129,10 @@ def cases(rng, tier):
                 for opts in ((None, {"kid": "my-kid"}, {"kid": "", "use": "sig"}, {"use": "sig", "alg": "X", "key_ops": ["sign", "verify"]})
                              if (tier == "thorough" or form in ("object", "jwk")) else (None,)):
                     out.append({"op": "key", "kind": kind, "form": form, "private": private, "options": opts})
+                # the order of accesses must not matter: public PEM / DER / key object first, the JWK members afterwards
+                if private and form in ("object", "pem", "jwk") and not kind.startswith("oct"):
+                    for order in ("pem-first", "pubkey-first", "der-first", "private-pem-first"):
+                        out.append({"op": "key", "kind": kind, "form": form, "private": private, "options": None, "order": order})
     out.append({"op": "keyset", "kinds": ["RSA-2048", "EC-P-256-lz", "OKP-Ed25519", "oct-16"]})
     out.append({"op": "keyset", "kinds": ["EC-P-521-lz", "OKP-X25519"]})
     return out
@@ -211,6 +215,11 @@ def impl_key(c, rng):
     res = {"notes": []}
     key = import_in_form(k, c["form"], private, c["options"])
     is_oct = isinstance(k, bytes)
+    order = c.get("order")
+    if order == "pem-first": key.as_pem()
+    elif order == "pubkey-first": key.get_public_key()
+    elif order == "der-first": key.as_der()
+    elif order == "private-pem-first": key.as_pem(is_private=True)
     ref_pub = None if is_oct else k.public_key()
     res["kty"] = key.kty
     d_pub = dict(key.as_dict())
